@@ -6,6 +6,7 @@ permutations, both through sort() and through on-disk discovery."""
 import itertools, os, shutil
 from ..core import digest
 from ..fmt import zipatch as zp
+from . import c03
 
 LEVEL = "exploration"
 RULE = ("finite domains enumerated through the real functions and compared with independent Python tables: "
@@ -275,6 +276,11 @@ def patch_side_names(ctx):
             continue
         pn = zp.PLATFORM_NAMES[pl]
         ops = [dict(op="FHDR", version=3), dict(op="T", platform=pl, region=rng.choice([-1, 1]))]      # both regions the format knows
+        # win32 is the platform in force before any target-info chunk: some win32 patches carry none, and run right after an apply
+        # for another platform has failed in the same process (nothing of that one may carry over)
+        no_t = pl == 0 and rng.random() < 0.6
+        if no_t:
+            ops = ops[:1]
         expected = set()
         folder = "ffxiv" if ex == 0 else "ex%d" % ex
         # a second target-info chunk in the middle: the first categories are addressed under the first platform, then ALL categories
@@ -309,6 +315,9 @@ def patch_side_names(ctx):
         shutil.rmtree(root, ignore_errors=True)
         os.makedirs(root)
         ctx.case(("patch-names", pn, ex), True, ["patch-side-names:%s" % pn, "patch-side-names:target-info-chunks:%d" % len(phases)], sample=dict(platform=pn, expansion=ex, commands=len(ops), files_expected=len(expected)))
+        if no_t:
+            c03.failed_apply_first(ctx, rng)
+            ctx.stats.classes["patch-side-names:no-target-info-chunk-after-failed-apply"] += 1
         r = ctx.call("zp.apply", root, pf, input_bytes=len(wire))
         if not ctx.check_mon(r, len(wire), files=[pf]):
             shutil.rmtree(root, ignore_errors=True)
